@@ -1801,12 +1801,58 @@ def rule_owner(ctx, classes=SKETCH_CLASSES):
                 ctx.ob("owner", d, unl[0] if unl else arm, "existing_shm arm", "a view only closes, it never unlinks", not unl)
 
 
+_VIEW_METHODS = {"reshape", "ravel", "view", "transpose", "swapaxes", "squeeze", "T", "flat"}
+_VIEW_FUNCS = {"np.frombuffer", "numpy.frombuffer", "np.asarray", "numpy.asarray", "np.reshape", "numpy.reshape", "np.ravel", "numpy.ravel",
+               "np.ndarray", "numpy.ndarray", "memoryview", "np.lib.stride_tricks.as_strided", "np.atleast_1d", "np.atleast_2d",
+               "np.squeeze", "numpy.squeeze", "np.transpose", "numpy.transpose"}
+
+
+def _is_view_of(e, bases):
+    """True when `e` may evaluate to an array sharing memory with `self.<b>` for some b in `bases`: the attribute itself, a slice of
+    it, one of numpy's view-returning methods / functions applied to such a thing, or a display holding one."""
+    if isinstance(e, (ast.Tuple, ast.List)):
+        return any(_is_view_of(x, bases) for x in e.elts)
+    if isinstance(e, ast.Dict):
+        return any(_is_view_of(x, bases) for x in e.values if x is not None)
+    if isinstance(e, ast.IfExp):
+        return _is_view_of(e.body, bases) or _is_view_of(e.orelse, bases)
+    if self_attr(e) in bases:
+        return True
+    if isinstance(e, ast.Subscript):
+        sl = e.slice
+        parts = sl.elts if isinstance(sl, ast.Tuple) else [sl]
+        # (an index with no slice in it selects one element -- a scalar copy -- of an array of that many dimensions; a fancy index
+        # copies; anything with a slice is a view)
+        return any(isinstance(x, ast.Slice) for x in parts) and _is_view_of(e.value, bases)
+    if isinstance(e, ast.Attribute) and e.attr in _VIEW_METHODS:
+        return _is_view_of(e.value, bases)
+    if isinstance(e, ast.Call):
+        if isinstance(e.func, ast.Attribute) and e.func.attr in _VIEW_METHODS:
+            return _is_view_of(e.func.value, bases)
+        if (dotted(e.func) or "") in _VIEW_FUNCS and e.args:
+            return _is_view_of(e.args[0], bases)
+    return False
+
+
 def _shm_backed(F, cls):
     out = []
     for dd in F.attr_defs(cls):
         al = array_alloc(dd.value)
         if al and al["kind"] == "frombuffer" and dd.attr not in out:
             out.append(dd.attr)
+    # attributes that CACHE a view of one of those arrays (`self._cells = (self.lhh.reshape(...), ...)`) export the block's buffer just
+    # as the arrays do: close() fails while they are alive
+    grew = True
+    while grew and out:
+        grew = False
+        for m in cls.methods.values():
+            for n in walk_no_nested(m.node):
+                if isinstance(n, ast.Assign):
+                    for t in n.targets:
+                        a = self_attr(t)
+                        if a and a not in out and _is_view_of(n.value, set(out)):
+                            out.append(a)
+                            grew = True
     return out
 
 
